@@ -507,19 +507,20 @@ def line_for(cfg, tbl, hist, uni):
 def run(ctx):
     L()
     tbl = ext_table()
-    count = 900 if ctx.tier == "thorough" else 70
+    count = 4000 if ctx.tier == "thorough" else 70
     # corpus first
     for p in sorted(glob.glob(os.path.join(common.VERIF, "corpus", "C13", "*.json"))):
-        case = json.load(open(p))["case"]
+        entry = json.load(open(p))
+        case = entry["case"]
         ctx.case("corpus:" + os.path.basename(p))
         still = replay(ctx, case)
         if still:
-            ctx.violation(case.get("key", "corpus:" + os.path.basename(p)), still, case)
+            ctx.violation(entry.get("key", "corpus:" + os.path.basename(p)), still, case)
     jobs = [(cfg, ctx.seed, count, ctx.tier) for cfg in CONFIGS]
     with multiprocessing.get_context("fork").Pool(min(16, len(jobs))) as pool:
         results = pool.map(work, jobs, chunksize=1)
     lines, impl, cases = [], [], []
-    seen_rules = set()
+    seen_rules = {tuple(v["key"].split(":", 1)) for v in ctx.violations if ":" in v["key"]}
     for res in results:
         for r in res:
             cfg, h = r["cfg"], r["hist"]
